@@ -18,11 +18,11 @@ type PinAtom struct {
 }
 
 type PinCase struct {
-	Atoms     []PinAtom `json:"atoms"`               // top-level conjunction of pinning atoms (1 or 2)
-	Opaque    string    `json:"opaque,omitempty"`    // opaque value predicate conjoined, if any
+	Atoms     []PinAtom `json:"atoms"`            // top-level conjunction of pinning atoms (1 or 2)
+	Opaque    string    `json:"opaque,omitempty"` // opaque value predicate conjoined, if any
 	OpaqueFst bool      `json:"opaque_first,omitempty"`
-	False     bool      `json:"false,omitempty"`     // the clause is the literal `false`
-	AndWord   bool      `json:"and_word,omitempty"`  // use `and` instead of `&`
+	False     bool      `json:"false,omitempty"`    // the clause is the literal `false`
+	AndWord   bool      `json:"and_word,omitempty"` // use `and` instead of `&`
 	Fields    string    `json:"fields,omitempty"`
 	Delete    bool      `json:"delete,omitempty"` // the clause belongs to a DELETE statement
 }
@@ -141,7 +141,7 @@ func init() {
 	register(&Prop{
 		ID:    "C18",
 		Level: "exploration",
-		Rule: "case = (canonical key-pinning WHERE shape with its literals from the alphabet {a,b,c} up to length 3, optional opaque value conjunct on either side, optional second pinning conjunct, store, batch size, drain mode). The invariant is evaluated over the simulated storage's read trace: every Get key lies in the union of the pinning conjuncts' closed regions; per poll at most one cursor key lies outside it and it is the last one of that poll; no cursor key lies below the region start; =/IN shapes (alone, with an opaque conjunct, or with a prefix/range conjunct containing all their keys) issue no cursor Next at all and Get-read every surviving key; clauses unsatisfiable on their face issue no Get and no Next. quick samples; thorough enumerates all literal choices per shape. distinct_nontrivial counts distinct (shape tuple, literal tuple, opaque position, mode, batch) with at least one storage read or an unsatisfiable verdict.",
+		Rule:  "case = (canonical key-pinning WHERE shape with its literals from the alphabet {a,b,c} up to length 3, optional opaque value conjunct on either side, optional second pinning conjunct, store, batch size, drain mode). The invariant is evaluated over the simulated storage's read trace: every Get key lies in the union of the pinning conjuncts' closed regions; per poll at most one cursor key lies outside it and it is the last one of that poll; no cursor key lies below the region start; =/IN shapes (alone, with an opaque conjunct, or with a prefix/range conjunct containing all their keys) issue no cursor Next at all and Get-read every surviving key; clauses unsatisfiable on their face issue no Get and no Next. quick samples; thorough enumerates all literal choices per shape. distinct_nontrivial counts distinct (shape tuple, literal tuple, opaque position, mode, batch) with at least one storage read or an unsatisfiable verdict.",
 		Assumptions: []string{
 			"closed bounds: reading the literal key itself for > and < is not a violation",
 			"'at most one key beyond the end' is read per poll (per end detection); the stricter whole-statement count is recorded as a number, not judged",
